@@ -1,5 +1,7 @@
 package negotiation
 
+// NOTE: this file is a verbatim copy of /verif/harness/C13/negotiation.go (hvr_equal / hrr_equal are shared by C04 and C13, see DESIGN.md).
+
 //symgo:pkg github.com/pion/dtls/v3/internal/negotiation
 //symgo:param NSID quick=2 thorough=3
 //symgo:param NSUITE quick=2 thorough=2
